@@ -67,6 +67,8 @@ struct Env<'b, T: El, S: SEl> {
     leaked_ok: HashSet<u64>,
     z_leaked: u64,
     panic_fired_in_plan: bool,
+    /// iterator panic index replayed on the std side (extend / splice only)
+    std_ipanic: Option<u32>,
     own_checks_off: bool,
 }
 
@@ -485,7 +487,7 @@ impl<'b, T: El + PartialEq, S: SEl> Env<'b, T, S> {
                 "ok"
             }
             "extend" => {
-                let it = SrcIter::new(mk(&op.xs), op.hint, None);
+                let it = SrcIter::new(mk(&op.xs), op.hint, self.std_ipanic);
                 self.sv[v].as_mut().unwrap().extend(it);
                 "ok"
             }
@@ -528,7 +530,7 @@ impl<'b, T: El + PartialEq, S: SEl> Env<'b, T, S> {
                 "items"
             }
             "splice" => {
-                let it = SrcIter::new(mk(&op.xs), op.hint, None);
+                let it = SrcIter::new(mk(&op.xs), op.hint, self.std_ipanic);
                 let vec = self.sv[v].as_mut().unwrap();
                 let mut sp = vec.splice((op.s.to_std(), op.e.to_std()), it);
                 for _ in 0..op.take {
@@ -727,6 +729,7 @@ pub fn run_plan<T: El + PartialEq, S: SEl>(plan: &mut Plan, gen: Option<(Profile
             leaked_ok: HashSet::new(),
             z_leaked: 0,
             panic_fired_in_plan: false,
+            std_ipanic: None,
             own_checks_off: false,
         };
         let n_target = gen.map(|g| g.1).unwrap_or(plan.ops.len());
@@ -901,6 +904,19 @@ pub fn run_plan<T: El + PartialEq, S: SEl>(plan: &mut Plan, gen: Option<(Profile
                     }
                 }
             }
+            // C19 (Vec part): a reservation whose element count or byte size cannot be represented must be refused
+            // (Err from the fallible methods, panic from the others), for every element size including zero
+            if matches!(name, "reserve" | "reserve_exact" | "try_reserve" | "try_reserve_exact" | "with_cap") {
+                let base = if name == "with_cap" { 0 } else { pre_len };
+                let esz = std::mem::size_of::<T>();
+                let impossible = match base.checked_add(op.n) {
+                    None => true,
+                    Some(need) => esz > 0 && need.checked_mul(esz).map_or(true, |b| b > isize::MAX as usize),
+                };
+                if impossible && !panicked && crate_tag != "err" {
+                    fail("C19", "unrepresentable-capacity-accepted", format!("{} len={} n={} elem-size={} -> {}", name, base, op.n, esz, crate_tag));
+                }
+            }
             if let Some(nb) = env.neighbours_ok() {
                 fail("C13", "neighbour-disturbed", nb);
             }
@@ -920,6 +936,23 @@ pub fn run_plan<T: El + PartialEq, S: SEl>(plan: &mut Plan, gen: Option<(Profile
                 // unwinding / leaking paths have no reference in std: only ownership is checked
                 if !injected_panic && !(fired && !panicked) {
                     // forgotten iterator: run nothing on std, take the crate's contents
+                }
+                // A panicking *source iterator* in extend / splice is the one unwinding path whose outcome is
+                // fixed by the algorithm the crate forked (every item taken so far has been written and counted;
+                // Drain's drop then moves the tail behind them): replay it on std with the same panic index.
+                let ip = Env::<T, S>::pk(&op, Pk::Iter);
+                if injected_panic && kind != 'Z' && ip.is_some() && matches!(name, "extend" | "splice") && env.sv[op.v].is_some() {
+                    env.std_ipanic = ip;
+                    let sr = catch_unwind(AssertUnwindSafe(|| env.std_op(&op)));
+                    env.std_ipanic = None;
+                    let _ = disarm();
+                    if sr.is_err() {
+                        let c: Option<Vec<u32>> = env.bv[op.v].as_ref().map(|b| vals_of(&b[..]));
+                        let s: Option<Vec<u32>> = env.sv[op.v].as_ref().map(|b| svals(&b[..]));
+                        if c != s {
+                            fail("C13", "std-mismatch-after-unwind", format!("contents v{} crate={:?} std={:?} {}", op.v, c, s, op.to_text()));
+                        }
+                    }
                 }
                 env.resync_std();
             } else {
